@@ -5169,6 +5169,8 @@ class DfaCompileCtx:
         Convert the AST into a (potentially optimized) DFA.
         """
 
+        if self.ast is None:
+            raise IllegalASTStateError("Parser does not contain any match statements")
         self.dfa = self.ast.convert(defaultdict(lambda: self.generic_fail_state))
         self.dfa.add(self.generic_fail_state)
 
